@@ -36,7 +36,7 @@ fn nontrivial(o: &Outcome) -> bool {
 
 const CLASSES: &[&str] = &["recaps-multi-target-after-change", "recaps-none-recoverable", "recaps-of-recaps", "multi-target-enc", "pruned-revisions", "disable-effective", "update-dropped-rights", "rekeyed"];
 
-fn hc(thorough: bool) -> HistCheck<'static> {
+pub fn hc(thorough: bool) -> HistCheck<'static> {
     HistCheck {
         focus: "C18",
         profile: profile(thorough),
